@@ -632,7 +632,7 @@ pub fn run(run: &Run) {
     run.assume("one terminal signal per stream direction; a stop raised after the sender's finish completed has no effect (stopped() then reports Closed)");
     prop_search(
         run,
-        Search { check: "signals", cases: run.tier.pick(1500, 12000), workers: 8, max_shrink_iters: 60 },
+        Search { check: "signals", cases: run.tier.pick(1500, 50000), workers: 8, max_shrink_iters: 60 },
         case_strategy,
         |c| judge(|| exec(c), true, "C06:signal-lost"),
         |c| serde_json::to_value(c).unwrap(),
